@@ -237,13 +237,19 @@ where
 
             match stream.as_mut().poll_next(cx) {
                 // Received message from a client stream
-                Poll::Ready(Some((id, Ok(item)))) => {
-                    let mut payload = item.unwrap_message();
+                Poll::Ready(Some((id, Ok(Frame::Message(mut payload))))) => {
                     payload
                         .headers
                         .get_or_insert(HashMap::new())
                         .insert("cid".into(), format!("{id}"));
                     *buffered_req = Some(Frame::Message(payload));
+                }
+                // Only messages can be routed; anything else a requestor sends is dropped
+                Poll::Ready(Some((_, Ok(frame)))) => {
+                    error!(
+                        "Received non-message frame from requestor (type {})",
+                        frame.get_type()
+                    )
                 }
                 // Encountered an error whilst receiving a message from an inner stream
                 Poll::Ready(Some((_, Err(e)))) => {
